@@ -57,7 +57,13 @@ REQUEST = bytes.fromhex("302902010104067075626c6963a01c02046553f1000201000201003
 EP = Endpoint(ipaddress.ip_address("192.0.2.1"), 161)
 
 
+REPLY_SIZE = [None]
+
+
 def reply_bytes(i):
+    if REPLY_SIZE[0] is not None:
+        n = REPLY_SIZE[0]
+        return (b"\x00 size-%d-%d " % (n, i) + bytes(range(256)) * (n // 256 + 1))[:n]
     # leading/trailing whitespace and NULs: "unmodified" means byte for byte; odd
     # attempts answer with a LONG datagram (a few kB), even ones with a short one
     body = bytes(range(200, 232)) * (90 if i % 2 else 1)
@@ -267,6 +273,38 @@ def virtual_part(R):
                 R.mon["virtual_sequences_run"] += 1
                 R.mon["hygiene_events"] += len(hygiene)
                 judge_virtual(R, case, seq, retries, timeout, res, t0, log, transports)
+    # extreme timeouts: 0 (every attempt gives up at once), tiny, an hour, days
+    for timeout in (0, 0.001, 3600, 10**6 + 0.5):
+        for retries in (1, 2, 3):
+            seqs = [("none",) * retries]
+            if timeout:
+                seqs += [("none",) * (retries - 1) + ("reply",), ("late",) * retries, ("icmp",) + ("none",) * (retries - 1)]
+            for seq in seqs:
+                k += 1
+                if not R.mine(k):
+                    continue
+                case = {"part": "virtual", "seq": list(seq), "retries": retries, "timeout": timeout}
+                res, t0, log, transports, hygiene = run_virtual(seq, retries, timeout)
+                R.case(("c13a", retries, timeout, seq), True)
+                R.mon["virtual_sequences_run"] += 1
+                R.mon["extreme_timeouts_run"] += 1
+                judge_virtual(R, case, seq, retries, timeout, res, t0, log, transports)
+    # reply sizes up to the largest datagram UDP can carry (IPv4: 65507, IPv6: 65527)
+    for size in (0, 1, 1472, 1473, 4096, 65506, 65507, 65508, 65527):
+        for seq in (("reply",), ("none", "reply"), ("two",)):
+            k += 1
+            if not R.mine(k):
+                continue
+            case = {"part": "virtual", "seq": list(seq), "retries": len(seq), "timeout": 1, "reply_size": size}
+            REPLY_SIZE[0] = size
+            try:
+                res, t0, log, transports, hygiene = run_virtual(seq, len(seq), 1)
+                R.case(("c13a-size", size, seq), True)
+                R.mon["virtual_sequences_run"] += 1
+                R.mon["reply_sizes_run"] += 1
+                judge_virtual(R, case, seq, len(seq), 1, res, t0, log, transports)
+            finally:
+                REPLY_SIZE[0] = None
     # history: N calls whose socket cannot even be created (OS error), then a normal
     # exchange in the same process / on the same loop must still work
     for n_fail in (1, 5, 63, 64, 70, 130):
@@ -314,6 +352,13 @@ def fd_set():
     return out
 
 
+def real_reply(what, i):
+    if what == "bigreply":
+        # the largest datagram UDP over IPv4 carries
+        return (b" real-reply-%d\n" % i + bytes(range(256)) * 256)[:65507]
+    return b" real-reply-%d\n" % i
+
+
 class Peer(asyncio.DatagramProtocol):
     """Scripted UDP peer: behaviour per received datagram index."""
 
@@ -331,6 +376,8 @@ class Peer(asyncio.DatagramProtocol):
         what = self.plan[i] if i < len(self.plan) else "silent"
         if what == "reply":
             self.transport.sendto(b" real-reply-%d\n" % i, addr)
+        elif what == "bigreply":
+            self.transport.sendto(real_reply(what, i), addr)
         elif what == "two":
             self.transport.sendto(b" real-reply-%d\n" % i, addr)
             self.transport.sendto(b"real-second-%d" % i, addr)
@@ -397,20 +444,23 @@ def judge_real(R, case, plan, retries, closed_port, res, leaked, received, rw):
     if len(received) > retries or any(d != REQUEST for d in received):
         R.violation(case, "peer received %d datagrams (retries=%d) / altered payload" % (len(received), retries), None)
         return "violation"
-    first = next((i for i, w in enumerate(plan[:retries]) if w in ("reply", "two")), None)
+    first = next((i for i, w in enumerate(plan[:retries]) if w in ("reply", "two", "bigreply")), None)
     if first is None:
         if res[0] != "exc" or not isinstance(res[1], Timeout):
             return "ambiguous"
         if len(received) != retries:
             return "ambiguous"
     else:
-        if res[0] == "ok" and res[1] != b" real-reply-%d\n" % first and res[1].strip() == b"real-reply-%d" % first:
-            R.violation(case, "reply returned modified: %r" % (res[1],), None)
+        want = real_reply(plan[first], first)
+        if res[0] == "ok" and res[1] != want and res[1].strip() == want.strip():
+            R.violation(case, "reply returned modified: %r" % (res[1][:40],), None)
             return "violation"
-        if res[0] != "ok" or res[1] != b" real-reply-%d\n" % first:
+        if res[0] != "ok" or res[1] != want:
             return "ambiguous"
         if len(received) != first + 1:
             return "ambiguous"
+        if plan[first] == "bigreply":
+            R.mon["real_65507_octet_replies"] += 1
     return "ok"
 
 
@@ -419,6 +469,8 @@ def real_part(R):
     for retries in (1, 2, 3):
         plans.append((("reply",), retries, False))
         plans.append((("two",), retries, False))
+        if retries < 3:
+            plans.append((("bigreply",), retries, False))
         plans.append((("silent",) * retries, retries, False))
         if retries > 1:
             plans.append((("silent",) * (retries - 1) + ("reply",), retries, False))
@@ -464,7 +516,11 @@ def replay(R, v):
         judge_real(R, c, tuple(c["plan"]), c["retries"], c["closed_port"], res, leaked, received, rw)
     else:
         seq = tuple(c["seq"])
-        res, t0, log, transports, hygiene = run_virtual(seq, c["retries"], c["timeout"], cancel_at=c.get("cancel_at"))
+        REPLY_SIZE[0] = c.get("reply_size")
+        try:
+            res, t0, log, transports, hygiene = run_virtual(seq, c["retries"], c["timeout"], cancel_at=c.get("cancel_at"))
+        finally:
+            pass
         if c["part"] == "virtual-cancel":
             check_closed(R, c, transports, seq)
         else:
